@@ -58,9 +58,11 @@ m = {
     "hooks": {"guard": "walleye_verif",
               "enable": "rustc cfg flag: RUSTFLAGS='--cfg walleye_verif' (harness/.cargo/config.toml sets it; the harness includes /repo/src/*.rs by #[path] so every check recompiles the working tree; lib/vcommon.py build_binary(guard_on=True) builds the instrumented binary)",
               "baseline_off_cmd": "cd /repo && cargo test --workspace --no-fail-fast --offline",
-              "source_commits": ["ab59e29"], "add_only": True},
+              "source_commits": ["ab59e29", "de8f984"], "add_only": True},
     "engines": [{"name": "tlc", "path": "/usr/local/bin/tlc", "serves_properties": claimed,
-                 "kind_free_text": "TLC 1.8.0: exhaustive model runs of spec/*.tla and trace validation of ndjson traces recorded from the real code"}],
+                 "kind_free_text": "TLC 1.8.0: exhaustive model runs of spec/*.tla and trace validation of ndjson traces recorded from the real code"},
+                {"name": "apalache", "path": "/opt/veriftools/apalache/bin/apalache-mc", "serves_properties": ["C03", "C09"],
+                 "kind_free_text": "Apalache 0.58.0 on the same TLA+ modules: inductive invariant of Walleye.tla with symbolic parameters (WalleyeInd.tla), slice contract on literals beyond 32 bits (generated BigSlices module extending SliceContract.tla)"}],
     "checks": [],
     "notes": "All checks are decided by the TLA+ specification in /verif/spec (see DESIGN.md). ./check selftest runs the deeper spec self-checks (perft depth 4, bug-variant configurations).",
     "not_applicable": [],
